@@ -38,10 +38,11 @@ h_gf_invert_matrix(void)
  * every n <= INVF_NMAX, every content.  ret == 0  => in_original x out == I (ghost cell (g_r, g_c));
  * ret == -1 => det(in_original) == 0 (closed form, characteristic 2: no signs);
  * ret == 0  => det != 0 follows from the product but is asserted as well. */
-#ifdef VERIF_THOROUGH
+#ifndef INVF_NMAX
 #define INVF_NMAX 3
-#else
-#define INVF_NMAX 3
+#endif
+#ifndef INVF_EMAX /* every matrix entry is in 0..INVF_EMAX (255 = unrestricted) */
+#define INVF_EMAX 3
 #endif
 unsigned char w_m[INVF_NMAX * INVF_NMAX]; /* original matrix (replay witness) */
 int w_ret;
@@ -51,16 +52,18 @@ det2(unsigned char a, unsigned char b, unsigned char c, unsigned char d)
 {
         return (unsigned char) (MUL(a, d) ^ MUL(b, c));
 }
-void
-h_gf_invert_matrix_func(void)
+/* n is a literal in every call so that symex unwinds each loop exactly n (n*n) times */
+static void
+invf_case(const int n)
 {
-        int n;
-        HARNESS_ASSUME(1 <= n && n <= INVF_NMAX);
         unsigned char *in_mat = malloc((size_t) n * n), *out_mat = malloc((size_t) n * n);
         HARNESS_ASSUME(in_mat != NULL && out_mat != NULL);
         g_n = n;
-        for (int t = 0; t < INVF_NMAX * INVF_NMAX; t++)
+        for (int t = 0; t < INVF_NMAX * INVF_NMAX; t++) {
+                if (t < n * n)
+                        HARNESS_ASSUME(in_mat[t] <= INVF_EMAX);
                 w_m[t] = t < n * n ? in_mat[t] : 0;
+        }
         int r = gf_invert_matrix(in_mat, out_mat, n);
         w_ret = r;
         __CPROVER_assert(r == 0 || r == -1, "returns 0 or -1");
@@ -77,10 +80,38 @@ h_gf_invert_matrix_func(void)
         if (r == 0) {
                 HARNESS_ASSUME(0 <= g_r && g_r < n && 0 <= g_c && g_c < n);
                 unsigned char acc = 0;
-                for (int t = 0; t < INVF_NMAX; t++)
-                        if (t < n)
-                                acc ^= MUL(w_m[g_r * n + t], out_mat[t * n + g_c]);
+                for (int t = 0; t < n; t++)
+                        acc ^= MUL(w_m[g_r * n + t], out_mat[t * n + g_c]);
                 __CPROVER_assert(acc == (g_r == g_c ? 1 : 0), "in_original x out == identity");
         }
+}
+void
+h_gf_invert_matrix_func(void)
+{
+        int n;
+        HARNESS_ASSUME(1 <= n && n <= INVF_NMAX);
+        if (n == 1)
+                invf_case(1);
+        else if (n == 2)
+                invf_case(2);
+#if INVF_NMAX >= 3
+        else if (n == 3)
+                invf_case(3);
+#endif
+        VCANARY();
+}
+
+/* lemmas over the specification functions used above (sanity of the oracle itself) */
+void
+h_spec_matrix_lemmas(void)
+{
+        unsigned char x;
+        unsigned e1, e2;
+        HARNESS_ASSUME(e1 < 255 && e2 < 255);
+        __CPROVER_assert(x == 0 ? spec_gf_inv(x) == 0 : spec_gf_mul(x, spec_gf_inv(x)) == 1, "a^254 is the inverse");
+        __CPROVER_assert(spec_gf_pow2(0) == 1 && spec_gf_pow2(1) == 2, "2^0, 2^1");
+        __CPROVER_assert(spec_gf_mul(spec_gf_pow2(e1), spec_gf_pow2(e2)) == spec_gf_pow2((e1 + e2) % 255),
+                         "2^e1 * 2^e2 == 2^((e1+e2) mod 255)");
+        __CPROVER_assert(e1 == 0 || spec_gf_pow2(e1) != 1, "2 has order exactly 255");
         VCANARY();
 }
